@@ -87,6 +87,17 @@ theorem c10_backoff_bounded_step (cfg : Cfg) (hmin : 0 ≤ cfg.backoffMin) (hmax
     rw [this]
     exact window_le _ _ _ _ _ hb.2 hrD hrN (hj _ hb.1)
 
+/-- the predicate the driver evaluates on the implementation's windows holds of the model's -/
+theorem c10_spec_backoff (cfg : Cfg) (hmin : 0 ≤ cfg.backoffMin) (hmax : 0 ≤ cfg.backoffMax)
+    (rN rD : Int) (hrD : 0 < rD) (hrN : 0 ≤ rN) (force : Bool) (now : Time) (jit : Time → Time) (hj : JitOk rN rD jit)
+    (e : Res EtagObs) (l : Res Doc) (s : RState) :
+    specBackoff cfg rN rD now s.snap (check cfg force now jit e l s).1.snap = true := by
+  rcases c10_backoff_bounded_step cfg hmin hmax rN rD hrD hrN force now jit hj e l s with h | h
+  · simp [specBackoff, RState.snap, h]
+  · unfold WindowOk at h
+    simp only [specBackoff, RState.snap, Bool.or_eq_true, beq_iff_eq]
+    right; exact decide_eq_true h
+
 /-- Along every history (the clock never runs backwards) the time for which unforced checks are
     still suppressed never exceeds `max(0.2, backoff_max · (1 + jitter_ratio))`. -/
 theorem c10_backoff_bounded (cfg : Cfg) (hmin : 0 ≤ cfg.backoffMin) (hmax : 0 ≤ cfg.backoffMax)
